@@ -180,10 +180,10 @@ OBLIGATIONS = [
 ]
 ENUM = [
   {"func": "combiner_case", "domains": {"text": _TEXTS, "s1": _OFF, "e1": _OFF, "n1": _REPL, "lit": ["", "a"], "t2": ["", "b", "ab"],
-                                        "ps": list(range(ETL + 4)), "pe": list(range(1, ETL + 5))}, "shard_by": "text", "max_s": 200,
+                                        "ps": list(range(ETL + 4)), "pe": list(range(1, ETL + 5))}, "shard_by": "text", "max_s": 100,
    "desc": "Combiner[literal, Replacer(one patch), Text]: every text (len <= %d), patch and output patch of the bounded space" % ETL},
   {"func": "nested_case", "domains": {"text": _TEXTS, "s1": _OFF, "e1": _OFF, "n1": _REPL, "s3": list(range(ETL + 2)), "e3": list(range(ETL + 2)), "n3": _REPL,
-                                      "ps": list(range(ETL + 2)), "pe": list(range(1, ETL + 3))}, "shard_by": "text", "max_s": 200,
+                                      "ps": list(range(ETL + 2)), "pe": list(range(1, ETL + 3))}, "shard_by": "text", "max_s": 100,
    "desc": "Replacer over Replacer: output, map_back_patch and map_back_offset through both levels, texts of len <= %d" % ETL},
 ]
 BOUNDS = {"text": "len <= %d over alphabet 'ab$' (symbolic), <= %d (enumerated)" % (TL, ETL), "replacements": "len <= %d" % NL, "offsets": "all (symbolic ints)",
